@@ -25,6 +25,7 @@ MODULES = {
     "iroh__mapped_addrs": ("iroh", "socket::mapped_addrs::verif_kani"),
     "iroh__ip": ("iroh", "socket::transports::ip::verif_kani"),
     "iroh__hooks": ("iroh", "endpoint::hooks::verif_kani"),
+    "iroh__verifier": ("iroh", "tls::verifier::verif_kani"),
 }
 
 COMMON_STUBS = ["n0_error::backtrace_enabled -> false"]
@@ -352,5 +353,22 @@ PROPS["C42"] = {
         H(_HK, "c42_after_handshake_2_hooks", "result is the first rejecting hook's error code and reason, else Accept; order as above", "2 hooks, all patterns, any codes"),
         H(_HK, "c42_after_handshake_3_hooks", "same", "3 hooks", timeout=600),
         W(_HK, "c42_after_witness"),
+    ],
+}
+
+_V = "iroh__verifier"
+PROPS["C01"] = {
+    "functions": ["iroh::tls::verifier::ServerCertificateVerifier::{verify_server_cert,requires_raw_public_keys}", "ClientCertificateVerifier::{verify_client_cert,offer_client_auth}",
+                  "Ed25519Dalek::verify_signature", "iroh::tls::name::decode", "rustls::sign::public_key_to_spki, rustls ServerName/DnsName parsing (real)"],
+    "bounds": "any dialed key K; end-entity certificate: every 44-byte string (and lengths 43/45 for the right key); 0 or 1 intermediate; raw key lengths 31..=33, signature lengths 63..=65, 4-byte message",
+    "out": "MOST of the property: the TLS handshake itself (rustls/noq calls verify_tls13_signature with the presented certificate and the transcript), remote_id_from_noq_conn and connect_with_opts passing the name of the dialed id "
+           "(need a live connection / Endpoint); tls::name::encode (format!) is replaced by an equivalent construction of the name; decode() of arbitrary strings (split + collect allocates by symbolic length); Ed25519 itself (oracle)",
+    "stubs": [KEY_ALLVALID, KEY_ORACLE, SIG_ORACLE, BT],
+    "assumptions": ["rustls verifies the handshake signature against the end-entity certificate it passed to verify_server_cert (rustls contract)"],
+    "harnesses": [
+        H(_V, "c01_handshake_signature_is_checked_with_the_presented_key", "verify_signature Ok iff 32-byte valid key, 64-byte signature and the oracle accepts exactly (key, message, signature)", "key 31..=33 B, signature 63..=65 B, all symbolic", timeout=600, stub_env=True, stubs=["decompress", "verify"]),
+        H(_V, "c01_server_cert_must_be_spki_of_dialed_id", "with the name derived from dialed id K, a presented certificate is accepted iff it is exactly the Ed25519 SPKI of K; the derived name decodes back to K", "any K, every 44-byte certificate", timeout=900),
+        H(_V, "c01_chains_and_other_names_rejected", "intermediates, other certificate lengths and non-DNS names are rejected; client certs accepted only without intermediates", "fixed key, symbolic intermediate", timeout=600),
+        W(_V, "c01_witness"),
     ],
 }
